@@ -25,12 +25,21 @@ Sub-checks
               bad exclusion list - at any position) through the command-line entry point
               `python -m insights.client.apps.ansible.playbook_verifier` (run in-process: stdin / exit status)
               and through a sequence of verify() calls in one process
+  scale       plays holding a value with one large dimension - nested up to 100 container levels (blocks within
+              blocks), sequences / mappings of up to ~1200 items, strings of up to 70 000 characters - and a single
+              edit in its innermost / last part; placed in a task, in vars, at top level or inside an excluded element
+  (digest, verify, shared, playbook, scale also draw the edit "near": a number / string replaced by the closest
+  value of the same type - next double, fewer significant digits, one bit / digit of an integer, case / Unicode
+  composition / trailing blank of a string; exhaustive also walks "size ladders": one play per nesting depth, item
+  count, string length, and per precision / magnitude of a number)
 """
 import base64
 import copy
 import hashlib
 import itertools
+import math
 import re
+import unicodedata
 
 from hypothesis import strategies as st
 
@@ -60,7 +69,21 @@ RULE = ("plays = JSON trees of mappings (string / int / float / bool / null keys
         "/ wrongly signed / unsigned / without or with a bad exclusion list (one faulty play at a late-biased "
         "position, all valid, or free mix), 0-2 unrelated revocation entries, run through the module entry point "
         "or a verify() sequence; non-trivial: the first play to refuse is not the first play, or several plays all "
-        "accepted.")
+        "accepted. Numbers: floats with 1-17 significant digits at magnitudes 1e-12..1e14, a/b and a/10+b/10 results, "
+        "extreme doubles, integers around 2**31 .. 2**128 and 10**9 .. 10**40; edit 'near' = the closest value of the "
+        "same type (1 .. 200 ulps, rounding to 1-16 significant digits, relative change 1e-9 .. 1e-16, -0.0 / 0.0, one "
+        "bit / last digit of an integer, the nearest double of an integer, case / Unicode composition / trailing blank "
+        "of a string). scale: a generated play plus one large value described compactly (frames [kind, items before, "
+        "items after] outside-in, a pool of item values, the innermost part before / after the edit, long strings as "
+        "unit * n + mark + unit * m): depth 1-100 container levels (patterns block / sequence / mapping / mixed), "
+        "sequences up to 1200 and mappings up to 600 items (300 / 200 through YAML), strings up to 70 000 characters "
+        "(3 000 through YAML), sizes drawn next to powers of two / ten or log-uniform and biased to the large end, edit "
+        "position mostly at the far end; placed in a new task / vars child / top-level key (digest must change) or in "
+        "place of an excluded element (digest must not change); non-trivial: more than 8 levels, 64 items or 256 "
+        "characters and the pair differs. exhaustive also holds size ladders: depth 1-100 x 3 patterns, item counts and "
+        "string lengths 0-39 and next to every power of two / ten up to 1100 items / 70 000 characters, floats of 1-17 "
+        "significant digits x 18 magnitudes with their neighbours at +-1, +-2 ulps, integers +-(2**k - 1, 2**k, 2**k + 1) "
+        "for k <= 130 and 10**k +- 1 for k <= 40 as int, float and mapping key.")
 ASSUMPTIONS = [
     "the digest is observed as hash_play(serialize_play(exclude_dynamic_elements(play))) - the exact "
     "composition verify_play hands to GPG (sub-checks presence/verify confirm that this value reaches "
@@ -79,6 +102,12 @@ ASSUMPTIONS = [
     "non-excluded place, a change of that value is neither required to change the digest nor to keep it",
     "playbook: 'rejected' / 'verification error' at the entry point = non-zero exit status; accepted = exit "
     "status 0 (what is printed is not asserted); SKIP_VERIFY is removed from the environment for the run",
+    "two floats are different values iff their repr differs (every double has its own shortest repr; -0.0 and 0.0 "
+    "are different YAML scalars and are told apart by the unchanged code); two integers iff they differ, whatever "
+    "their size; two strings iff their code points differ (no case folding, no Unicode normalisation, no trimming)",
+    "size: plays of up to ~105 container levels, ~5 000 items per container and ~300 000 characters per string are "
+    "inside the domain (the unchanged loader, deepcopy and serialiser handle more than twice that depth; YAML texts "
+    "the loader refuses are skipped); nothing is claimed beyond",
 ]
 EXCLUDED = [
     "YAML anchors on booleans (ruamel loads '&a true' as ScalarBoolean, an int subclass that the "
@@ -91,6 +120,8 @@ EXCLUDED = [
     "strings with lone surrogates (cannot be encoded to UTF-8 by serialize_play)",
     "shared: recursive plays (a node that contains itself; the serialiser cannot terminate), anchors on "
     "ints / floats / nulls (immutable, sharing has no effect) and on booleans (finding above)",
+    "plays nested deeper than ~105 container levels (the unchanged code ends in RecursionError / a refused load "
+    "somewhere beyond 240 levels, depending on the stack in use), integers of more than 4300 digits (int -> str limit)",
 ]
 
 EXCL = "insights_signature_exclude"
@@ -361,8 +392,10 @@ def _parse_requests(ex):
 def model_clean(c):
     """c = canon(play) with vars a mapping holding a string exclusion list.
     -> ("ok", canon of the cleaned play) | ("err", why) | ("ambiguous", why)"""
-    c = copy.deepcopy(c)
-    items = c[1]
+    # (only the two levels the rules can touch are copied: the values below them are shared with `c`, never
+    # modified, and may be nested far deeper than copy.deepcopy could follow on the harness' stack)
+    items = [[k, v] for k, v in c[1]]
+    c = ["m", items]
     vars_ = items[_find(items, ["s", "vars"])][1]
     ex = vars_[1][_find(vars_[1], ["s", EXCL])][1][1]
     verdict, parsed = _parse_requests(ex)
@@ -381,7 +414,7 @@ def model_clean(c):
         j = _find(sub[1], ["s", parts[1]])
         if j is None:
             return ("err", "missing-key: %s" % "/".join(parts))
-        del sub[1][j]
+        items[i][1] = ["m", [kv for n, kv in enumerate(sub[1]) if n != j]]
     return ("ok", c)
 
 
@@ -631,7 +664,46 @@ def _check_pair1(case):
         return {"nontrivial": False, "labels": labels}
     special = _has_special(ca) or _has_special(cb)
     labels.append("differ-outside" + ("/special-string" if special else "/plain"))
+    if case.get("edit") == "near":
+        labels.append("near/" + _near_class(ca, cb))
     return {"nontrivial": special, "labels": labels, "key": [ca, cb]}
+
+
+def _first_diff(a, b):
+    """the first pair of sub-forms in which two canonical forms differ (parallel walk)"""
+    if a == b:
+        return None
+    if a[0] != b[0] or a[0] not in ("m", "l") or len(a[1]) != len(b[1]):
+        return (a, b)
+    for x, y in zip(a[1], b[1]):
+        for u, v in (zip(x, y) if a[0] == "m" else [(x, y)]):
+            d = _first_diff(u, v)
+            if d is not None:
+                return d
+    return (a, b)
+
+
+def _near_class(ca, cb):
+    """how close the two values are that a 'near' edit produced (label only)"""
+    x, y = _first_diff(ca, cb)
+    if x[0] == "f" and y[0] == "f":
+        fx, fy = float(x[1]), float(y[1])
+        if fx == fy:
+            return "float/zero-sign"
+        if math.isinf(fx) or math.isinf(fy):
+            return "float/inf-vs-max"
+        d = 0
+        for d in range(17, -1, -1):
+            if d and "%.*e" % (d - 1, fx) == "%.*e" % (d - 1, fy):
+                break
+        return "float/agree-in-%s-digits" % ("16+" if d >= 16 else "12-15" if d >= 12 else "6-11" if d >= 6 else "0-5")
+    if x[0] == "i" and y[0] == "i":
+        big = min(abs(int(x[1])), abs(int(y[1]))) >= 2 ** 53
+        return "int/" + ("beyond-2**53" if big else "small")
+    if x[0] == "s" and y[0] == "s":
+        return "str/" + ("case" if x[1].lower() == y[1].lower() else "composition" if
+                         unicodedata.normalize("NFC", x[1]) == unicodedata.normalize("NFC", y[1]) else "trailing")
+    return "other"
 
 
 # ---------------------------------------------------------------------------------------------
@@ -652,12 +724,35 @@ _any_text = st.one_of(_plain_text, _special_text, _quoty_text, _special_text, st
 _style = st.sampled_from(["d", "d", "s", "p", "p", "l"])
 
 _str_node = st.builds(lambda t, q: {"s": t, "q": q}, _any_text, _style)
+# numbers at every precision / magnitude: the digest has to tell apart values that differ in their last digit only
+_big_int = st.one_of(
+    st.builds(lambda k, d, sg: sg * (2 ** k + d), st.sampled_from([31, 32, 53, 63, 64, 100, 128]), st.integers(-2, 2),
+              st.sampled_from([1, 1, -1])),
+    st.builds(lambda k, d: 10 ** k + d, st.integers(9, 40), st.integers(-1, 1)),
+    st.integers(1, 40).flatmap(lambda n: st.integers(10 ** (n - 1), 10 ** n - 1)))
 _int_node = st.builds(lambda v, r: {"i": v, "r": r},
-                      st.one_of(st.sampled_from([0, 1, -1, 2, 10, 15, 16, 255, 1000, 10 ** 22]), st.integers(-1000, 100000)),
+                      st.one_of(st.sampled_from([0, 1, -1, 2, 10, 15, 16, 255, 1000, 10 ** 22]), st.integers(-1000, 100000),
+                                st.integers(-1000, 100000), _big_int),
                       st.sampled_from(["d", "d", "x", "o", "u"]))
+
+
+def _digits_float(digits, mantissa, exp10, neg):
+    """the double nearest to a decimal number with exactly `digits` significant digits"""
+    m = 10 ** (digits - 1) + mantissa % (9 * 10 ** (digits - 1))
+    return repr(float("%s%de%d" % ("-" if neg else "", m, exp10 - digits + 1)))
+
+
+_precise_float = st.one_of(
+    st.builds(_digits_float, st.integers(1, 17), st.integers(0, 10 ** 17), st.integers(-12, 14), st.booleans()),
+    st.builds(_digits_float, st.integers(13, 17), st.integers(0, 10 ** 17), st.integers(-3, 3), st.just(False)),
+    st.builds(lambda a, b: repr(a / b), st.integers(1, 1000), st.sampled_from([3, 7, 9, 10, 11, 13, 100, 1000])),
+    st.builds(lambda a, b: repr(a / 10.0 + b / 10.0), st.integers(0, 20), st.integers(0, 20)),     # 0.1 + 0.2
+    st.sampled_from([5e-324, 2.2250738585072014e-308, 1.7976931348623157e+308, 2.0 ** 53, 2.0 ** 53 + 2, 1e22, 1e23,
+                     2.0 ** 63, 2.0 ** 64, 123456789012.0, 1234567890123.0, 1e15, 1e16 - 2, 4.35, 2.675]).map(repr))
 _float_node = st.one_of(
     st.sampled_from(["1.0", "0.0", "-0.0", "1.5", "1e+16", "1.5e-07", "nan", "inf", "-inf", "1000.0", "0.1", "15.0"]),
-    st.floats(allow_nan=False, allow_infinity=False, width=64).map(repr)).map(lambda t: {"f": t})
+    st.floats(allow_nan=False, allow_infinity=False, width=64).map(repr),
+    _precise_float).map(lambda t: {"f": t})
 _bool_node = st.builds(lambda b, r: {"b": b, "r": r}, st.booleans(), st.integers(0, 2))
 _null_node = st.builds(lambda r: {"n": r}, st.integers(0, 3))
 _scalar = st.one_of(_str_node, _str_node, _str_node, _int_node, _float_node, _bool_node, _null_node)
@@ -818,9 +913,72 @@ _ESCAPES = [("\n", "\\n"), ("\t", "\\t"), (u"\u200b", "\\u200b"), (u"\u200c", "\
             ("\\", "\\\\"), ("'", "\\'"), ('"', '\\"'), ("\r", "\\r"), ("\x00", "\\x00")]
 
 # (Hypothesis favours the front of a sampled_from list: the crafted edits come first)
-EDITS = ["splice-key", "splice-item", "escape", "type", "key-type", "renest-in", "renest-out", "wrap", "unwrap",
-         "splice-key", "splice-item", "escape", "type", "reorder", "scalar", "key-rename", "insert", "delete",
+EDITS = ["splice-key", "splice-item", "escape", "type", "near", "key-type", "renest-in", "renest-out", "wrap", "unwrap",
+         "splice-key", "splice-item", "escape", "type", "near", "reorder", "scalar", "key-rename", "insert", "delete",
          "split", "merge", "suffix-move", "scalar", "none"]
+
+
+def _ulps(f, k):
+    for _ in range(abs(k)):
+        f = math.nextafter(f, math.inf if k > 0 else -math.inf)
+    return f
+
+
+def _near(draw, n):
+    """a node of the same type whose value is as close to n's as the type allows (None: no such value):
+    the next representable doubles, the value rounded to fewer significant digits, a relative change of
+    1e-9 .. 1e-16, the other zero; an integer changed in one (low or high) bit / its last digit / replaced by the
+    nearest double; a string changed in the case / the Unicode composition of one character or by a trailing blank"""
+    if "f" in n:
+        f = float(n["f"])
+        if f != f:
+            return None
+        if math.isinf(f):
+            return {"f": repr(math.copysign(1.7976931348623157e+308, f))}
+        how = draw(st.sampled_from(["ulp", "ulp", "ulps", "round", "round", "rel", "zero"]))
+        g = f
+        if how == "ulp":
+            g = _ulps(f, draw(st.sampled_from([1, -1])))
+        elif how == "ulps":
+            g = _ulps(f, draw(st.sampled_from([2, -2, 3, -5, 16, -64, 200])))
+        elif how == "round":
+            g = float("%.*g" % (draw(st.integers(1, 16)), f))
+        elif how == "rel":
+            g = f * (1.0 + draw(st.sampled_from([1, -1])) * 10.0 ** -draw(st.integers(9, 16)))
+        elif f == 0.0:
+            g = -f
+        if repr(g) == repr(f) or g != g:
+            g = _ulps(f, 1)
+        return {"f": repr(g)}
+    if "i" in n:
+        v = int(n["i"])
+        how = draw(st.sampled_from(["one", "bit", "digit", "double", "bit"]))
+        w = v
+        if how == "bit":
+            w = v ^ (1 << draw(st.integers(0, max(v.bit_length(), 1))))
+        elif how == "digit":
+            w = v - v % 10 + (v % 10 + draw(st.integers(1, 9))) % 10
+        elif how == "double" and abs(v) < 10 ** 300:
+            w = int(float(v))
+        if w == v:
+            w = v + draw(st.sampled_from([1, -1]))
+        return {"i": w, "r": n.get("r", "d")}
+    if "s" in n:
+        t = n["s"]
+        opts = []
+        cased = [i for i, ch in enumerate(t) if ch.swapcase() != ch and len(ch.swapcase()) == 1]
+        if cased:
+            i = _pick(draw, cased)
+            opts.append(t[:i] + t[i].swapcase() + t[i + 1:])
+        for form in ("NFD", "NFC"):
+            u = unicodedata.normalize(form, t)
+            if u != t:
+                opts.append(u)
+        opts.append(t + draw(st.sampled_from([" ", "\n", "\t", u"\u00a0", u"\u200b", "\x00"])))
+        if t[-1:] in (" ", "\n", "\t"):
+            opts.append(t[:-1])
+        return {"s": _pick(draw, opts), "q": "d"}
+    return None
 
 
 def _pick(draw, xs):
@@ -933,6 +1091,17 @@ def _apply_edit(draw, tree, kind, region_paths):
             setslot(s, {"b": not n["b"]})
         else:
             setslot(s, draw(_value if s[2] != "k" else _key))
+    elif kind == "near":
+        # numbers first: that is where "close" has a meaning the other edits do not reach
+        cand = ([s for s in slots if "f" in s[0][s[1]] and s[0][s[1]]["f"] != "nan"] * 3 +
+                [s for s in slots if "i" in s[0][s[1]]] * 2) or sslots
+        if cand and not (cand is sslots) and sslots and draw(st.integers(0, 5)) == 0:
+            cand = sslots
+        if cand:
+            s = _pick(draw, cand)
+            node = _near(draw, s[0][s[1]])
+            if node is not None:
+                setslot(s, node)
     elif kind == "type" or kind == "key-type":
         cand = [s for s in slots if (s[2] == "k") == (kind == "key-type")] or slots
         s = _pick(draw, cand)
@@ -1198,6 +1367,70 @@ def _universe(tier):
             yield {"m": [[k1, {"m": [[k2, v], [S("z"), v]]}]]}
             if _scalar_py(k1) != _scalar_py(k2):
                 yield {"m": [[k1, {"m": []}], [k2, v], [S("z"), v]]}
+    for tree in _ladders(tier):
+        yield tree
+
+
+def _nest(kinds, leaf):
+    cur = leaf
+    for k in reversed(kinds):
+        cur = {"l": [cur]} if k == "l" else {"m": [[S("block", "p"), cur]]}
+    return cur
+
+
+def _ladders(tier):
+    """one play per size along every dimension in which a play can be large - nesting depth, number of items,
+    string length, precision / magnitude of a number: a rendering that stops looking beyond some size makes two
+    steps of a ladder collide"""
+    for d in range(1, MAX_DEPTH + 1):                  # depth: sequences, mappings, blocks ({block: [..]})
+        for pattern in ("l", "m", "ml"):
+            kinds = [pattern[i % len(pattern)] for i in range(d)]
+            for leaf in (S("a"), S("b")):
+                yield {"m": [[S("k"), _nest(kinds, leaf)]]}
+    sizes = sorted(set(list(range(0, 40)) + _size_marks(1100 if tier == "quick" else 5100)))
+    for n in sizes:                                    # number of items: the last / the first one differs
+        a, b = S("a"), S("b")
+        yield {"m": [[S("k"), {"l": [a] * n}]]}
+        yield {"m": [[S("k%d" % j), a] for j in range(n)]}
+        if n:
+            yield {"m": [[S("k"), {"l": [a] * (n - 1) + [b]}]]}
+            yield {"m": [[S("k"), {"l": [b] + [a] * (n - 1)}]]}
+            yield {"m": [[S("k%d" % j), a] for j in range(n - 1)] + [[S("k%d" % (n - 1)), b]]}
+            yield {"m": [[S("k%d" % j), a] for j in range(n - 1)] + [[S("K%d" % (n - 1)), a]]}
+    for n in sorted(set(list(range(0, 40)) + [m for m in _size_marks(70000) if m < 1100 or tier != "quick" or m % 2 == 0])):
+        yield {"m": [[S("k"), S("a" * n)]]}            # string length
+        if n:
+            yield {"m": [[S("k"), S("a" * (n - 1) + "b")]]}
+        if 0 < n < 1100:
+            yield {"m": [[S("a" * (n - 1) + "b"), S("v")]]}
+    seen = set()
+    for digits in range(1, 18):                        # floats: every number of significant digits x magnitude,
+        for exp10 in (-320, -300, -20, -7, -5, -4, -1, 0, 1, 5, 11, 12, 15, 16, 17, 22, 23, 300):     # and the doubles next to it
+            for lead in ("1234567890123456789", "9999999999999999999", "1000000000000000001", "3000000000000000000"):
+                f = float("%se%d" % (lead[:digits], exp10 - digits + 1))
+                for k in (-2, -1, 0, 1, 2):
+                    g = _ulps(f, k)
+                    if g == g and not math.isinf(g) and repr(g) not in seen:
+                        seen.add(repr(g))
+                        yield {"m": [[S("k"), {"f": repr(g)}]]}
+    for a in range(0, 11):
+        for b in range(0, 11):                         # 0.1 + 0.2
+            g = a / 10.0 + b / 10.0
+            if repr(g) not in seen:
+                seen.add(repr(g))
+                yield {"m": [[S("k"), {"f": repr(g)}]]}
+    ints = set()
+    for k in range(1, 131):                            # integers around every power of two / ten
+        ints.update([2 ** k - 1, 2 ** k, 2 ** k + 1, -(2 ** k) - 1, -(2 ** k), -(2 ** k) + 1])
+    for k in range(1, 41):
+        ints.update([10 ** k - 1, 10 ** k, 10 ** k + 1])
+    for v in sorted(ints):
+        yield {"m": [[S("k"), {"i": v}]]}
+        g = float(v)
+        if repr(g) not in seen:
+            seen.add(repr(g))
+            yield {"m": [[S("k"), {"f": repr(g)}]]}
+        yield {"m": [[{"i": v}, S("v")]]}
 
 
 def exhaustive(tier, seed, shard, nshards, stats):
@@ -2055,6 +2288,9 @@ def _playbook_case(draw):
     plays = []
     for i in range(n):
         tree, excluded = draw(_play(signed=True))
+        # the plays of one playbook are different plays (Hypothesis likes to repeat its simplest play: then the
+        # digest of a revoked play would be the digest of every play before it as well)
+        tree["m"].append([S("play_no", "p"), {"i": i}])
         if scenario == "free":
             kind = draw(st.sampled_from(PLAY_KINDS))
         elif scenario == "one-fault" and i == fault_at:
@@ -2073,6 +2309,266 @@ def _playbook_case(draw):
 
 def strat_playbook(tier):
     return _playbook_case()
+
+
+# ---------------------------------------------------------------------------------------------
+# size: plays with one large dimension (nesting depth, number of items, string length); the two plays of a
+# pair differ at the far end of it
+# ---------------------------------------------------------------------------------------------
+# case = {"mode": "py" | "yaml", "a": play tree, "edit": kind,
+#         "graft": {"where": "task" | "vars" | "top" | "excluded", "front": bool, "path": [i] | [i, j]},
+#         "frames": [[t, pre, post], ...]    the containers around the innermost part, outside-in: t = "l" (sequence)
+#                                            | "m" (mapping, the way down is its key 'block'), with `pre` / `post`
+#                                            further items before / after the way down (taken from `pool` by position)
+#         "pool": [scalar node, ...], "numbered": bool     (numbered: item j of a container is pool[..] + j)
+#         "tail_a": tree, "tail_b": tree}    the innermost part of the two plays; {"rep": [unit, pre, mid, post]} in it
+#                                            is the string unit * pre + mid + unit * post
+# The large value never appears in the case itself (replay files stay small, nothing in the harness recurses over a
+# deep JSON document); check_scale expands it.
+
+MAX_DEPTH = 100     # container levels of the large value.  The unchanged code handles more than twice as much:
+#                     block YAML loads up to ~240 levels, deepcopy + serialiser work up to ~300 (measured on an empty
+#                     stack; inside a Hypothesis run some 100 frames are in use already)
+
+
+def _size_marks(hi):
+    """the sizes next to powers of two / ten and other round numbers, where size limits tend to sit"""
+    base = [2 ** k for k in range(2, 18)] + [10 ** k for k in range(1, 6)] + [20, 50, 200, 500, 5000, 50000]
+    return [m for m in sorted(set(b + d for b in base for d in (-1, 0, 1, 2))) if 1 <= m <= hi]
+
+
+def _sib(pool, numbered, lvl, j):
+    n = pool[(lvl + j) % len(pool)]
+    if numbered and "s" in n:
+        return {"s": n["s"] + str(j), "q": n.get("q", "d")}
+    if numbered and "i" in n:
+        return {"i": n["i"] + j, "r": n.get("r", "d")}
+    return n
+
+
+def _expand_rep(n):
+    if "rep" in n:
+        unit, pre, mid, post = n["rep"]
+        return {"s": unit * pre + mid + unit * post, "q": n.get("q", "d")}
+    if "m" in n:
+        return {"m": [[_expand_rep(k), _expand_rep(v)] for k, v in n["m"]]}
+    if "l" in n:
+        return {"l": [_expand_rep(x) for x in n["l"]]}
+    return n
+
+
+def big_value(frames, pool, numbered, tail):
+    cur = _expand_rep(tail)
+    for lvl in range(len(frames) - 1, -1, -1):
+        t, pre, post = frames[lvl]
+        if t == "l":
+            cur = {"l": [_sib(pool, numbered, lvl, j) for j in range(pre)] + [cur] +
+                        [_sib(pool, numbered, lvl, pre + 1 + j) for j in range(post)]}
+        else:
+            cur = {"m": [[S("k%d" % j, "p"), _sib(pool, numbered, lvl, j)] for j in range(pre)] +
+                        [[S("block", "p"), cur]] +
+                        [[S("k%d" % (pre + 1 + j), "p"), _sib(pool, numbered, lvl, pre + 1 + j)] for j in range(post)]}
+    return cur
+
+
+def _graft(play, graft, big):
+    t = copy.deepcopy(play)
+    where = graft["where"]
+    if where == "excluded":
+        path = graft["path"]
+        pair = t["m"][path[0]]
+        if len(path) == 2:
+            pair = pair[1]["m"][path[1]]
+        pair[1] = big
+        return t
+    entry = [S("zbig", "p"), big]
+    target = t["m"]
+    if where == "task":
+        entry = M((S("name", "p"), S("big", "p")), (S("zbig", "p"), big))
+        target = [kv for kv in t["m"] if kv[0].get("s") == "tasks"][0][1]["l"]
+    elif where == "vars":
+        target = [kv for kv in t["m"] if kv[0].get("s") == "vars"][0][1]["m"]
+    if graft.get("front"):
+        target.insert(0, entry)
+    else:
+        target.append(entry)
+    return t
+
+
+def _rep_len(n):
+    if "rep" in n:
+        unit, pre, mid, post = n["rep"]
+        return len(unit) * (pre + post) + len(mid)
+    if "m" in n:
+        return max([max(_rep_len(k), _rep_len(v)) for k, v in n["m"]] or [0])
+    if "l" in n:
+        return max([_rep_len(x) for x in n["l"]] or [0])
+    return 0
+
+
+def _bucket(n, bounds):
+    lo = 0
+    for b in bounds:
+        if n <= b:
+            return "%d-%d" % (lo, b)
+        lo = b + 1
+    return "%d+" % lo
+
+
+def check_scale(case):
+    """digest injectivity / invariance for plays holding a value that is nested deep, has many items or a long string:
+    whatever the size, a change in its innermost / last part changes the digest iff that part is not excluded"""
+    frames, pool, numbered = case["frames"], case["pool"], case.get("numbered", False)
+    depth = len(frames)
+    width = max([f[1] + f[2] + 1 for f in frames] or [1])
+    slen = max(_rep_len(case["tail_a"]), _rep_len(case["tail_b"]))
+    where = case["graft"]["where"]
+    labels = ["dim=" + case.get("dim", "?"), "graft=" + where, "levels=" + _bucket(depth, [8, 16, 32, 64, MAX_DEPTH]),
+              "items=" + _bucket(width, [8, 64, 256, 1024]), "string=" + _bucket(slen, [64, 256, 4096, 65536])]
+    a = _graft(case["a"], case["graft"], big_value(frames, pool, numbered, case["tail_a"]))
+    b = _graft(case["a"], case["graft"], big_value(frames, pool, numbered, case["tail_b"]))
+    try:
+        r = _check_pair1({"mode": case["mode"], "a": a, "b": b, "edit": case["edit"],
+                          "region": "excluded" if where == "excluded" else "any"})
+    except Violation as v:
+        small = dict((k, x) for k, x in v.details.items() if k.startswith("digest"))
+        raise Violation("%s [the plays hold a large value (%d container levels, widest container %d items, longest "
+                        "string %d characters; placed: %s) and differ only in its innermost part: %s -> %s]"
+                        % (v.msg.split(" (serialised:")[0], depth, width, slen, where, jdump_short(case["tail_a"]),
+                           jdump_short(case["tail_b"])), mode=case["mode"], levels=depth, items=width, string=slen, **small)
+    labels += r["labels"]
+    large = depth > 8 or width > 64 or slen > 256
+    effective = any(l.startswith("differ-outside") or l == "same-cleaned/excluded-part-differs" for l in r["labels"])
+    key = hashlib.sha1(repr([frames, pool, numbered, case["tail_a"], case["tail_b"], where]).encode("utf-8", "replace")).hexdigest()
+    return {"nontrivial": large and effective, "labels": labels, "key": key}
+
+
+def jdump_short(tree, limit=300):
+    text = repr(tree)
+    return text if len(text) <= limit else text[:limit] + "..."
+
+
+SCALE_EDITS = ["scalar", "near", "type", "wrap", "unwrap", "insert", "delete", "reorder", "key-rename", "key-type",
+               "scalar", "renest-in", "renest-out", "splice-item", "escape", "none"]
+_SAFE_FRAGS = [f for f in FRAGS if not any(0xd800 <= ord(ch) <= 0xdfff for ch in f)]
+
+
+def _log_size(draw, hi):
+    """1 .. hi: next to a round number, or uniform on a logarithmic scale (Hypothesis favours small draws, above
+    all in its first examples: they are mapped to the large sizes)"""
+    if draw(st.booleans()):
+        return _pick(draw, _size_marks(hi)[::-1])
+    return max(1, min(hi, int(round(hi ** (1.0 - draw(st.integers(0, 1000)) / 1000.0)))))
+
+
+def _position(draw, n):
+    """(items before, items after) the place of the edit in a container / string of n + 1 parts: mostly at the far end"""
+    how = draw(st.sampled_from(["end", "end", "end", "start", "middle"]))
+    if how == "end":
+        post = min(n, draw(st.integers(0, 2)))
+        return n - post, post
+    if how == "start":
+        pre = min(n, draw(st.integers(0, 2)))
+        return pre, n - pre
+    pre = draw(st.integers(0, n))
+    return pre, n - pre
+
+
+@st.composite
+def _scale_case(draw, tier):
+    tree, excluded = draw(_play(signed=draw(st.booleans())))
+    mode = draw(st.sampled_from(["py", "py", "yaml"]))
+    big = 1 if tier == "quick" else 4
+    dim = draw(st.sampled_from(["depth", "list", "string", "depth", "map", "deep+wide", "depth", "string"]))
+    small = st.integers(0, 9).map(lambda x: max(0, x - 7))          # 0 0 0 0 0 0 0 0 1 2
+    frames = []
+    if dim in ("depth", "deep+wide"):
+        d = (MAX_DEPTH - draw(st.integers(0, MAX_DEPTH - 1))) if draw(st.booleans()) else _pick(draw, _size_marks(MAX_DEPTH)[::-1])
+        pattern = draw(st.sampled_from(["ml", "ml", "l", "m", "lm", "mml", "free"]))
+        if pattern == "free":
+            kinds = draw(st.lists(st.sampled_from("ml"), min_size=d, max_size=d))
+        else:
+            kinds = [pattern[i % len(pattern)] for i in range(d)]
+        around = {"m": [draw(st.integers(0, 2)), draw(small)], "l": [draw(small), draw(small)]}    # e.g. `name:` before `block:`
+        frames = [[k] + around[k] for k in kinds]
+    else:
+        frames = [[draw(st.sampled_from("ml")), draw(small), draw(small)] for _ in range(draw(st.integers(0, 3)))]
+    if dim in ("list", "map", "deep+wide"):
+        t = "l" if dim == "list" else "m" if dim == "map" else draw(st.sampled_from("lm"))
+        hi = {"l": {"py": 1200 * big, "yaml": 300 * big}, "m": {"py": 600 * big, "yaml": 200 * big}}[t][mode]
+        if dim == "deep+wide":
+            hi = hi // 4
+        pre, post = _position(draw, _log_size(draw, hi))
+        frames.insert(draw(st.integers(0, len(frames))), [t, pre, post])
+        frames = frames[:MAX_DEPTH]
+    pool = draw(st.lists(st.one_of(_str_node, _str_node, _int_node, _scalar), min_size=1, max_size=3))
+    if dim == "string":
+        unit = "".join(draw(st.lists(st.sampled_from(_SAFE_FRAGS), min_size=1, max_size=3)))
+        n = _log_size(draw, {"py": 70000 * big, "yaml": 3000 * big}[mode]) // len(unit)
+        pre, post = _position(draw, n)
+        op = draw(st.sampled_from(["char", "char", "drop-tail", "one-more", "shift", "case", "none"]))
+        mid_a = draw(st.sampled_from(["x", "x", "", "'", "\\"]))
+        rep_a = [unit, pre, mid_a, post]
+        if op == "char":
+            rep_b = [unit, pre, draw(st.sampled_from(["y", "X", "x ", "\"", "\n"])), post]
+        elif op == "drop-tail":
+            rep_b = [unit, pre, mid_a, 0] if post else [unit, max(pre - 1, 0), mid_a, 0] if pre else [unit, 0, mid_a + "y", 0]
+        elif op == "one-more":
+            rep_b = [unit, pre, mid_a, post + 1]
+        elif op == "shift":
+            rep_b = [unit, pre + 1, mid_a, post - 1] if post else [unit, pre, mid_a, post + 1]
+        elif op == "case":
+            rep_b = [unit, pre, mid_a.swapcase(), post] if mid_a.swapcase() != mid_a else [unit, pre, mid_a + u"\u200b", post]
+        else:
+            rep_b = list(rep_a)
+        q = draw(st.sampled_from(["d", "d", "l", "s"]))
+        shape = draw(st.sampled_from(["item", "value", "value", "key"]))
+        other = draw(_scalar)
+
+        def holder(rep):
+            node = {"rep": rep, "q": q}
+            if shape == "item":
+                return {"l": [node, other]}
+            if shape == "value":
+                return {"m": [[S("k", "p"), node], [S("k2", "p"), other]]}
+            return {"m": [[node, other]]}
+
+        tail_a, tail_b, kind = holder(rep_a), holder(rep_b), "string-" + op
+    else:
+        n_items = 3 - draw(st.integers(0, 2))
+        tail_a = norm(draw(st.one_of(
+            st.lists(_value, min_size=n_items, max_size=n_items).map(lambda xs: {"l": xs}),
+            st.lists(st.tuples(_key, _value), min_size=n_items, max_size=n_items).map(
+                lambda kv: {"m": [[k, v] for k, v in kv]}))))
+        kind = draw(st.sampled_from(SCALE_EDITS))
+        root = {"m": [[S("x", "p"), tail_a]]}
+        tail_b = tail_a
+        if kind != "none":
+            # (the edit is confined to the innermost part: the value of the only item of `root`)
+            tail_b = _apply_edit(draw, root, kind, [[0]])["m"][0][1]
+            if tail_b == tail_a:
+                kind = "scalar-fallback"
+                tail_b = _apply_edit(draw, root, "scalar", [[0]])["m"][0][1]
+    graftable = []
+    for path in excluded:
+        pair = tree["m"][path[0]]
+        if len(path) == 2:
+            pair = pair[1]["m"][path[1]]
+        if pair[0].get("s") not in ("vars", EXCL):
+            graftable.append(path)
+    where = draw(st.sampled_from(["task", "excluded", "top", "vars", "task", "excluded", "top"]))
+    graft = {"where": where, "front": draw(st.booleans())}
+    if where == "excluded":
+        if graftable:
+            graft["path"] = _pick(draw, graftable)
+        else:
+            graft["where"] = "top"
+    return {"mode": mode, "a": tree, "dim": dim, "edit": kind, "graft": graft, "frames": frames, "pool": pool,
+            "numbered": draw(st.booleans()), "tail_a": tail_a, "tail_b": tail_b}
+
+
+def strat_scale(tier):
+    return _scale_case(tier)
 
 
 # ---------------------------------------------------------------------------------------------
@@ -2126,6 +2622,23 @@ def selftest():
         want = {"zalias_a1_0": [1], "tasks": [{"name": "shared", "vars": {EXCL: "/hosts,/vars/" + SIG, "g": [1]}}, {"k": "v"}],
                 "vars": {EXCL: "/hosts,/vars/" + SIG, "g": [1]}}
         assert model_clean_graph(obj) == ("ok", canon(want)), model_clean_graph(obj)
+    # model_clean leaves its argument alone (it shares the untouched values with it)
+    c0 = canon({"hosts": {"a": 1, "b": [2]}, "vars": {EXCL: "/hosts/a,/vars/" + SIG, SIG: "x"}, "t": [1]})
+    c1 = copy.deepcopy(c0)
+    assert model_clean(c0) == ("ok", canon({"hosts": {"b": [2]}, "vars": {EXCL: "/hosts/a,/vars/" + SIG}, "t": [1]})) and c0 == c1
+    # large values: expansion of the compact description
+    big = big_value([["m", 1, 1], ["l", 2, 0]], [S("p"), I(7)], True, L({"rep": ["ab", 2, "X", 1]}))
+    assert build_py(big) == {"k0": "p0", "block": [7, "p1", ["ababXab"]], "k2": "p2"}, build_py(big)
+    play = M((S("hosts"), S("h")), (S("tasks"), L(M((S("k"), S("v"))))), (S("vars"), M((S(EXCL), S("/hosts")))))
+    assert build_py(_graft(play, {"where": "task", "front": True}, I(1)))["tasks"][0] == {"name": "big", "zbig": 1}
+    assert build_py(_graft(play, {"where": "vars", "front": False}, I(1)))["vars"] == {EXCL: "/hosts", "zbig": 1}
+    assert build_py(_graft(play, {"where": "excluded", "path": [0]}, I(1)))["hosts"] == 1
+    assert _size_marks(40) == [3, 4, 5, 6, 7, 8, 9, 10, 11, 12, 15, 16, 17, 18, 19, 20, 21, 22, 31, 32, 33, 34]
+    assert _near_class(canon([0.1]), canon([_ulps(0.1, 1)])) == "float/agree-in-16+-digits"
+    assert _near_class(canon([0.1234567890123]), canon([0.1234567890124])) == "float/agree-in-12-15-digits"
+    assert _near_class(canon([1.5]), canon([1.6])) == "float/agree-in-0-5-digits"
+    assert _near_class(canon({"k": 2 ** 64}), canon({"k": 2 ** 64 + 1})) == "int/beyond-2**53"
+    assert len(set(repr(_ulps(1.0, k)) for k in (-2, -1, 0, 1, 2))) == 5
 
 
 # ---------------------------------------------------------------------------------------------
@@ -2194,15 +2707,16 @@ def strat_dupkey(tier):
 
 
 SUBS = [
-    Sub("dupkey", check_dupkey, strategy=strat_dupkey, quick=160, thorough=3000, workers_quick=2, workers_thorough=8),
+    Sub("dupkey", check_dupkey, strategy=strat_dupkey, quick=140, thorough=3000, workers_quick=2, workers_thorough=8),
     Sub("exhaustive", check_pair, custom=exhaustive, workers_quick=1, workers_thorough=1, budget_quick=60,
         budget_thorough=600),
     Sub("digest", check_pair, strategy=strat_digest, quick=360, thorough=5000, workers_quick=4, workers_thorough=16),
-    Sub("exclusion", check_pair, strategy=strat_exclusion, quick=340, thorough=4000, workers_quick=2, workers_thorough=8),
-    Sub("presence", check_presence, strategy=strat_presence, quick=250, thorough=3000, workers_quick=2, workers_thorough=8),
+    Sub("exclusion", check_pair, strategy=strat_exclusion, quick=300, thorough=4000, workers_quick=2, workers_thorough=8),
+    Sub("presence", check_presence, strategy=strat_presence, quick=220, thorough=3000, workers_quick=2, workers_thorough=8),
     Sub("verify", check_verify, strategy=strat_verify, quick=120, thorough=2000, workers_quick=4, workers_thorough=16),
     Sub("shared", check_shared, strategy=strat_shared, quick=110, thorough=1500, workers_quick=2, workers_thorough=8),
     Sub("playbook", check_playbook, strategy=strat_playbook, quick=60, thorough=400, workers_quick=2, workers_thorough=8),
+    Sub("scale", check_scale, strategy=strat_scale, quick=55, thorough=2500, workers_quick=4, workers_thorough=8),
 ]
 
 # Reproducers of collisions that remain after fixes/C18-1.patch and that no small safe patch removes
@@ -2245,5 +2759,20 @@ REGRESSIONS = [
     Reg("tag-not-covered", "digest", dict(KNOWN_CANDIDATES[2][1]), expect="known", finding="C18-custom-tag"),
     # false alarm corrected (found at VERIF_SEED=11): lone surrogate inside an excluded element + "uncleaned" revocation entry
     Reg("verify-surrogate-in-excluded-element", "verify", {"a": {"m": [[{"q": "p", "s": "name"}, {"q": "d", "s": "0"}], [{"q": "p", "s": "hosts"}, {"m": [[{"q": "d", "s": "0"}, {"l": [{"q": "d", "s": "\ud83d"}]}]]}], [{"q": "p", "s": "tasks"}, {"l": []}], [{"q": "p", "s": "vars"}, {"m": [[{"q": "p", "s": "insights_signature"}, {"q": "d", "s": "AA=="}], [{"q": "p", "s": "insights_signature_exclude"}, {"q": "d", "s": "/vars/insights_signature,/hosts"}]]}]]}, "b": None, "mode": "py", "rev_hex": "lower", "rev_names": "unique", "revoked": ["uncleaned"]}),
+    # corners of the size / precision dimensions that hold on the pinned tree (round 5)
+    Reg("adjacent-numbers", "digest", {"mode": "yaml", "edit": "near", "raw": True,
+                                       "a": M((S("k"), L({"f": "0.1"}, {"f": "1234567890123.0"}, {"i": 2 ** 64}, {"f": "-0.0"}))),
+                                       "bs": [{"b": M((S("k"), L({"f": "0.10000000000000002"}, {"f": "1234567890123.0"}, {"i": 2 ** 64}, {"f": "-0.0"})))},
+                                              {"b": M((S("k"), L({"f": "0.1"}, {"f": "1234567890123.0002"}, {"i": 2 ** 64}, {"f": "-0.0"})))},
+                                              {"b": M((S("k"), L({"f": "0.1"}, {"f": "1234567890123.0"}, {"i": 2 ** 64 + 1}, {"f": "-0.0"})))},
+                                              {"b": M((S("k"), L({"f": "0.1"}, {"f": "1234567890123.0"}, {"i": 2 ** 64}, {"f": "0.0"})))}]}),
+    Reg("deep-blocks", "scale", {"mode": "yaml", "a": M((S("hosts"), S("h")), (S("tasks"), L()), (S("vars"), _V)),
+                                 "dim": "depth", "edit": "scalar", "graft": {"where": "task", "front": False},
+                                 "frames": [["m", 1, 0], ["l", 0, 0]] * 45, "pool": [S("stage")], "numbered": True,
+                                 "tail_a": M((S("command"), S("/usr/bin/true"))), "tail_b": M((S("command"), S("/usr/bin/false")))}),
+    Reg("long-sequence-last-item", "scale", {"mode": "py", "a": M((S("hosts"), S("h")), (S("tasks"), L()), (S("vars"), _V)),
+                                             "dim": "list", "edit": "scalar", "graft": {"where": "top", "front": True},
+                                             "frames": [["l", 5000, 0]], "pool": [S("x"), I(1)], "numbered": False,
+                                             "tail_a": L(S("a")), "tail_b": L(S("b"))}),
     Reg("deeper-request", "exclusion", {"mode": "py", "a": M((S("vars"), M((S(EXCL), S("/vars/a/b")), (S("a"), M((S("b"), I(1)))))))}),
 ]
